@@ -841,7 +841,7 @@ Section Gen.
     { intros b Hs Hx. peel Hx Hx2. peel Hx Hx1. exists t. split; [reflexivity|]. split; [exact Hs|].
       destruct (v_clazz var); [discriminate|reflexivity]. }
     destruct t as [| | | | | | | | | | | | |e|k]; try (right; left; apply (Hsimple _ eq_refl H1)); try discriminate H1.
-    - right. right. left. peel H1 H3. peel H1 H2. peel H1 H4. split; [reflexivity|].
+    - right. right. left. peel H1 H3. peel H1 H2. split; [reflexivity|].
       destruct (v_clazz var); [discriminate|]. destruct (v_tokens_factory var); [discriminate|]. split; reflexivity.
     - right. right. right. peel H1 G6. peel H1 G5. peel H1 G4. peel H1 G3. peel H1 G2.
       apply negb_true_iff in H1.
@@ -856,30 +856,15 @@ Section Gen.
       destruct (v_tokens_factory var); [discriminate|]. split; reflexivity.
   Qed.
 
-  (* where nillable is allowed: fields of a simple type (no tokens, no value default) or of a class type *)
+  (* where nillable is allowed: fields of a simple type, of QName type or of a class type *)
   Lemma wf_elem_nil var : wf_elem var = true -> v_nillable var = true ->
-    (exists t, v_types var = [t] /\ simple_type t = true /\ v_clazz var = None /\ v_tokens_factory var = None)
+    (exists t, v_types var = [t] /\ (simple_type t = true \/ t = TQName) /\ v_clazz var = None)
     \/ (exists k, v_types var = [TClass k] /\ v_clazz var = Some k /\ v_tokens_factory var = None).
   Proof.
-    intros H Hn. destruct (wf_elem_inv var H) as [_ [_ [[k Hk]|[Hs|[[Hq _]|Ha]]]]]; [right; exists k; exact Hk| | |].
+    intros H Hn. destruct (wf_elem_inv var H) as [_ [_ [[k Hk]|[Hs|[[Hq [Hcl _]]|Ha]]]]]; [right; exists k; exact Hk| | |].
     3:{ exfalso. destruct Ha as [_ [_ [_ [_ [Hnn _]]]]]. congruence. }
-    - left. destruct Hs as [t [Ht [Hst Hcl]]]. exists t. split; [exact Ht|]. split; [exact Hst|]. split; [exact Hcl|].
-      unfold wf_elem in H. peel H H1. rewrite Hn in H1. unfold var_type in H1. rewrite Ht in H1.
-      rewrite Hcl in H1.
-      destruct t as [| | | | | | | | | | | | |e|k]; try discriminate Hst;
-        (peel H1 H2; destruct (v_factory var), (v_tokens_factory var); try discriminate H2; reflexivity).
-    - exfalso. unfold wf_elem in H. peel H H1. rewrite Hn in H1. unfold var_type in H1. rewrite Hq in H1. discriminate H1.
-  Qed.
-
-  Lemma wf_elem_nonil_qname var : wf_elem var = true -> v_types var = [TQName] -> v_nillable var = false.
-  Proof.
-    intros Hw Ht. destruct (v_nillable var) eqn:En; [|reflexivity].
-    destruct (wf_elem_nil var Hw En) as [[t [Ht' [Hs _]]]|[k [Ht' _]]]; rewrite Ht in Ht'; inversion Ht'; subst t. discriminate Hs.
-  Qed.
-  Lemma wf_elem_nonil_tokens var tf : wf_elem var = true -> v_tokens_factory var = Some tf -> v_nillable var = false.
-  Proof.
-    intros Hw Ht. destruct (v_nillable var) eqn:En; [|reflexivity].
-    destruct (wf_elem_nil var Hw En) as [[t [_ [_ [_ Htf]]]]|[k [_ [_ Htf]]]]; congruence.
+    - left. destruct Hs as [t [Ht [Hst Hcl]]]. exists t. split; [exact Ht|]. split; [left; exact Hst|exact Hcl].
+    - left. exists TQName. split; [exact Hq|]. split; [right; reflexivity|exact Hcl].
   Qed.
 
   Lemma wf_elem_qname var : wf_elem var = true -> v_qname var <> [].
@@ -1541,8 +1526,11 @@ Section Gen.
               [|rewrite (wf_text_nonil var Hwt) in Hnl; discriminate Hnl].
             destruct (wf_elem_inv var Hwe) as [Hk [Hc _]].
             destruct (var_common_inv var Hc) as [_ [Hmx [Hany _]]].
-            assert (Htf : v_tokens_factory var = None)
-              by (destruct (wf_elem_nil var Hwe Hnl) as [[t [_ [_ [_ H]]]]|[k [_ [_ H]]]]; exact H).
+            assert (Htf : v_tokens_factory var = None).
+            { pose proof (Hfe _ var Hine (or_introl eq_refl)) as Hfv.
+              destruct Hsrc as [Hw|[f1 [t1 [l1 [_ [Htf1 _]]]]]]; cbn [fst snd] in *; [|exact Htf1].
+              unfold pair_whole in Hw. cbn [fst snd] in Hw. rewrite <- Hw in Hfv. unfold Fits.fits_elem in Hfv.
+              destruct (v_tokens_factory var); [|reflexivity]. destruct (v_factory var); discriminate Hfv. }
             assert (Hfa0 : v_factory var = None).
             { pose proof (Hfe _ var Hine (or_introl eq_refl)) as Hfv.
               destruct Hsrc as [Hw|[f1 [t1 [l1 [Hf1 [_ [_ [El Hil]]]]]]]]; cbn [fst snd] in *.
@@ -1675,13 +1663,12 @@ Section Gen.
             unfold Fits.fits_elem in Hfv.
             destruct (v_tokens_factory var) as [tf|] eqn:Etf.
             * (* tokens *)
-              pose proof (wf_elem_nonil_tokens var tf Hwe Etf) as Hn.
               destruct f as [|f0]; [cbn [odepth] in *; lia|].
               rewrite (run_value_tokens f0 var x tf Hmx Hk Etf). cbn [gbind].
               destruct (v_factory var) as [fa|] eqn:Efa.
               -- destruct x as [| |tt l| | | |]; try discriminate Hfv. apply andb_true_iff in Hfv as [_ Hfl].
                  unfold convert_tokens. cbn [py_truthy].
-                 destruct l as [|y l']; [rewrite Hn; reflexivity|]. cbn [nonempty orb].
+                 destruct l as [|y l']; [unfold v_list_element; rewrite Efa; cbn; rewrite andb_false_r; reflexivity|]. cbn [nonempty orb].
                  rewrite forallb_forall in Hfl.
                  destruct (fits_tokens_inv var tf y t Htys (Hfl y (or_introl eq_refl))) as [ty [ly [-> _]]].
                  rewrite (concatM_flat _ (fun z => bflat (g_prim var z))).
@@ -1690,7 +1677,8 @@ Section Gen.
                  rewrite (convert_element_plain var (VList tz lz) _ (Hanyf _) (encode_tokens t _ tz lz Htk)), bflat_prim. reflexivity.
               -- destruct x as [| |tt l| | | |] eqn:Ex; try (cbn in Hfv; discriminate Hfv).
                  destruct l as [|y l'].
-                 { unfold convert_tokens. cbn [py_truthy nonempty orb]. rewrite Hn. reflexivity. }
+                 { cbn in Hfv. apply andb_true_iff in Hfv as [_ Hn]. apply negb_true_iff in Hn.
+                   unfold convert_tokens. cbn [py_truthy nonempty orb]. rewrite Hn. reflexivity. }
                  destruct (fits_tokens_inv var tf _ t Htys Hfv) as [tt' [l'' [E [_ [Htk _]]]]]. inversion E; subst tt' l''.
                  unfold convert_tokens. cbn [py_truthy nonempty orb].
                  assert (Hy : match y with VList _ _ => False | _ => True end).
